@@ -27,7 +27,7 @@ def scratch_with_patch(patch):
     p = subprocess.run(['patch', '-p1', '-s', '-i', patch], cwd=root, capture_output=True, text=True)
     if p.returncode != 0:
         shutil.rmtree(root, ignore_errors=True)
-        raise SystemExit(f'patch does not apply: {patch}\n{p.stdout}{p.stderr}')
+        raise RuntimeError(f'patch does not apply: {patch}\n{p.stdout}{p.stderr}')
     return root
 
 
@@ -78,7 +78,13 @@ def main():
     out = []
     try:
         for sid in ids:
-            r = one(sid, tier, '--all-checks' in sys.argv, '--confirm' in sys.argv)
+            try:
+                r = one(sid, tier, '--all-checks' in sys.argv, '--confirm' in sys.argv)
+            except RuntimeError as e:
+                # the library moved on under the patch (a later repair touched the same lines): the seed has to be rebased by hand
+                print('PATCH-FAILED ' + sid, str(e).splitlines()[0], flush=True)
+                out.append({'id': sid, 'caught': False, 'patch_failed': True})
+                continue
             out.append(r)
             print(('CAUGHT ' if r['caught'] else 'MISSED ') + sid, r['property'], r['own'],
                   {k: r[k] for k in ('pinned_suite_passes_with_change', 'demo_without_change', 'demo_with_change') if k in r},
